@@ -2,20 +2,20 @@ import ShootVerif.Proofs.Cli
 /-!
 C16 — type selection and output file naming follow the command line.
 
-`run o cmd pkg fl` is the model of the driver (Model/Cli.lean): `o` is the iteration order of the map
+`run cmd pkg fl` is the model of the driver (Model/Cli.lean): `o` is the iteration order of the map
 `TypesInfo.Defs` (an arbitrary function), `pkg` ANY list of files of declarations, `fl` ANY flag values.
-`spec` is the property (Spec/Cli.lean). All theorems quantify over every oracle, package and flag record;
+`spec` is the property (Spec/Cli.lean). All theorems quantify over every package and flag record;
 `region … = .WF` is the decidable well-formedness predicate whose clauses are listed in `region`/`validPkg`
 (valid Go package inside the documented feature set; selection form the property talks about; not one of
-the five finding regions, each of which has a witness theorem below).
+the two finding regions, each of which has a witness theorem below).
 -/
 namespace ShootVerif.Cli
 
 /-- headline: on the well-formed region the model's outcome meets the specification — exactly the specified
     files are written, each holding exactly the specified types, exactly they are listed; or, with a bad
     name in the list, a diagnostic is printed and no written file holds a bad name -/
-theorem C16_model_meets_spec (o : Oracle) (cmd : Cmd) (pkg : Pkg) (fl : Flags) (h : region cmd pkg fl = .WF) :
-    ∃ s, spec cmd pkg fl = some s ∧ meets (run o cmd pkg fl) s = true := by
+theorem C16_model_meets_spec (cmd : Cmd) (pkg : Pkg) (fl : Flags) (h : region cmd pkg fl = .WF) :
+    ∃ s, spec cmd pkg fl = some s ∧ meets (run cmd pkg fl) s = true := by
   unfold region at h
   by_cases hv : validPkg pkg = true
   · have v := validFacts hv
@@ -27,11 +27,11 @@ theorem C16_model_meets_spec (o : Oracle) (cmd : Cmd) (pkg : Pkg) (fl : Flags) (
       | file f sep =>
         simp only [hm] at h
         cases hin : (pkg.map File.name).contains f with
-        | true => exact file_mode_meets o cmd pkg fl v hm hin
+        | true => exact file_mode_meets cmd pkg fl v hm hin
         | false => rw [hin] at h; simp at h
       | star sep =>
         simp only [hm] at h
-        apply star_mode_meets o cmd pkg fl v hm
+        apply star_mode_meets cmd pkg fl v hm
         by_cases he : (eligibleIn cmd pkg none).isEmpty = true
         · exact Or.inl he
         · right
@@ -59,63 +59,25 @@ theorem C16_model_meets_spec (o : Oracle) (cmd : Cmd) (pkg : Pkg) (fl : Flags) (
             subst hg
             simpa [fileMissing] using hfm
           simp only [hfm, Bool.false_eq_true, ↓reduceIte] at h
-          by_cases hc : ns.all (candsOK pkg) = true
-          · simp only [hc, Bool.not_true, Bool.false_eq_true, ↓reduceIte] at h
-            simp only [List.all_eq_true] at hc
-            by_cases hb : (ns.filter (fun n => !good cmd pkg file n)).isEmpty = true
-            · apply named_good_meets o cmd pkg fl v hm hnd hfile hc
-              intro n hn
-              simp only [List.isEmpty_iff, List.filter_eq_nil_iff, Bool.not_eq_true', Bool.not_eq_false] at hb
-              exact hb n hn
-            · simp only [hb, Bool.false_eq_true, ↓reduceIte] at h
-              have hbad : ∃ n ∈ ns, good cmd pkg file n = false := by
-                cases hl : ns.filter (fun n => !good cmd pkg file n) with
-                | nil => simp [hl] at hb
-                | cons a r =>
-                  have : a ∈ ns.filter (fun n => !good cmd pkg file n) := by simp [hl]
-                  simp only [List.mem_filter, Bool.not_eq_true'] at this
-                  exact ⟨a, this.1, this.2⟩
-              -- allInFile = false gives a name that is not declared in the named file
-              have hmis : allInFile pkg ns file = false → ∃ g, file = some g ∧ ∃ n ∈ ns, fileOf pkg n ≠ some g := by
-                intro hif
-                cases file with
-                | none => simp [allInFile] at hif
-                | some g =>
-                  simp only [allInFile, List.all_eq_false, beq_iff_eq] at hif
-                  obtain ⟨n, hn, hne⟩ := hif
-                  exact ⟨g, rfl, n, hn, hne⟩
-              apply named_bad_meets o cmd pkg fl v hm hfile hc hbad
-              · intro hcmd
-                subst hcmd
-                apply hmis
-                cases hif : allInFile pkg ns file with
-                | false => rfl
-                | true => simp [hif] at h
-              · intro hcmd
-                subst hcmd
-                cases hif : allInFile pkg ns file with
-                | false => exact Or.inl (hmis hif)
-                | true =>
-                  right
-                  simp only [hif, Bool.and_true, Bool.true_and, beq_self_eq_true] at h
-                  by_cases hef : ns.any (enumFatal pkg) = true
-                  · simp only [List.any_eq_true] at hef
-                    exact Or.inl hef
-                  · right
-                    simp only [hef, Bool.not_false, Bool.true_and] at h
-                    intro n hn
-                    cases hg : good Cmd.enum pkg file n with
-                    | false => rfl
-                    | true =>
-                      have : ns.any (good Cmd.enum pkg file) = true := List.any_eq_true.mpr ⟨n, hn, hg⟩
-                      simp [this] at h
-          · simp [hc] at h
+          by_cases hb : (ns.filter (fun n => !good cmd pkg file n)).isEmpty = true
+          · apply named_good_meets cmd pkg fl v hm hnd hfile
+            intro n hn
+            simp only [List.isEmpty_iff, List.filter_eq_nil_iff, Bool.not_eq_true', Bool.not_eq_false] at hb
+            exact hb n hn
+          · have hbad : ∃ n ∈ ns, good cmd pkg file n = false := by
+              cases hl : ns.filter (fun n => !good cmd pkg file n) with
+              | nil => simp [hl] at hb
+              | cons a r =>
+                have : a ∈ ns.filter (fun n => !good cmd pkg file n) := by simp [hl]
+                simp only [List.mem_filter, Bool.not_eq_true'] at this
+                exact ⟨a, this.1, this.2⟩
+            exact named_bad_meets cmd pkg fl v hm hnd hfile hbad
         · simp [hnd] at h
   · simp [hv] at h
 
 /-- the success message lists exactly the written files (all inputs, no side condition) -/
-theorem C16_listed (o : Oracle) (cmd : Cmd) (pkg : Pkg) (fl : Flags) (w : List (OutName × List String))
-    (l : List OutName) (b : Bool) (hr : run o cmd pkg fl = .done w l b) : l = w.map (·.1) := by
+theorem C16_listed (cmd : Cmd) (pkg : Pkg) (fl : Flags) (w : List (OutName × List String))
+    (l : List OutName) (b : Bool) (hr : run cmd pkg fl = .done w l b) : l = w.map (·.1) := by
   unfold run at hr
   split at hr
   · cases hr
@@ -128,13 +90,13 @@ theorem C16_listed (o : Oracle) (cmd : Cmd) (pkg : Pkg) (fl : Flags) (w : List (
         rfl
 
 /-- written files = specified files, whenever the specification asks for files -/
-theorem C16_written_eq (o : Oracle) (cmd : Cmd) (pkg : Pkg) (fl : Flags) (h : region cmd pkg fl = .WF)
+theorem C16_written_eq (cmd : Cmd) (pkg : Pkg) (fl : Flags) (h : region cmd pkg fl = .WF)
     (fs : List (OutName × List String)) (hs : spec cmd pkg fl = some (.files fs)) :
-    ∃ b, run o cmd pkg fl = .done fs (fs.map (·.1)) b := by
-  obtain ⟨s, hs', hmeets⟩ := C16_model_meets_spec o cmd pkg fl h
+    ∃ b, run cmd pkg fl = .done fs (fs.map (·.1)) b := by
+  obtain ⟨s, hs', hmeets⟩ := C16_model_meets_spec cmd pkg fl h
   rw [hs] at hs'
   cases hs'
-  cases hr : run o cmd pkg fl with
+  cases hr : run cmd pkg fl with
   | stop st => simp [hr, meets] at hmeets
   | done w l b =>
     simp only [hr, meets, Bool.and_eq_true, beq_iff_eq] at hmeets
@@ -142,16 +104,16 @@ theorem C16_written_eq (o : Oracle) (cmd : Cmd) (pkg : Pkg) (fl : Flags) (h : re
 
 /-- the set of types for which output is generated: the named types / the eligible types declared in the
     file / the eligible types of the package -/
-theorem C16_selection (o : Oracle) (cmd : Cmd) (pkg : Pkg) (fl : Flags) (h : region cmd pkg fl = .WF)
+theorem C16_selection (cmd : Cmd) (pkg : Pkg) (fl : Flags) (h : region cmd pkg fl = .WF)
     (fs : List (OutName × List String)) (hs : spec cmd pkg fl = some (.files fs)) :
-    (∃ b, run o cmd pkg fl = .done fs (fs.map (·.1)) b) ∧
+    (∃ b, run cmd pkg fl = .done fs (fs.map (·.1)) b) ∧
     fs.flatMap (·.2) =
       match mode fl with
       | some (.named ns _) => ns
       | some (.file f _) => eligibleIn cmd pkg (some f)
       | some (.star _) => eligibleIn cmd pkg none
       | none => [] := by
-  refine ⟨C16_written_eq o cmd pkg fl h fs hs, ?_⟩
+  refine ⟨C16_written_eq cmd pkg fl h fs hs, ?_⟩
   have hsingle : ∀ (e : List String) (k : String → OutName), (e.map (fun n => (k n, [n]))).flatMap (·.2) = e := by
     intro e k; induction e with
     | nil => rfl
@@ -191,12 +153,12 @@ theorem C16_selection (o : Oracle) (cmd : Cmd) (pkg : Pkg) (fl : Flags) (h : reg
           rw [← hs]; simp
 
 /-- ineligible declarations are skipped by `-file` and `-type=*` -/
-theorem C16_ineligible_skipped (o : Oracle) (cmd : Cmd) (pkg : Pkg) (fl : Flags) (h : region cmd pkg fl = .WF)
+theorem C16_ineligible_skipped (cmd : Cmd) (pkg : Pkg) (fl : Flags) (h : region cmd pkg fl = .WF)
     (hmode : ∀ ns file, mode fl ≠ some (.named ns file))
-    (w : List (OutName × List String)) (l : List OutName) (b : Bool) (hr : run o cmd pkg fl = .done w l b)
+    (w : List (OutName × List String)) (l : List OutName) (b : Bool) (hr : run cmd pkg fl = .done w l b)
     (f : String) (t : TSpec) (ht : (f, t) ∈ declared pkg) (hne : eligible cmd pkg t = false) :
     t.name ∉ w.flatMap (·.2) := by
-  obtain ⟨s, hs, hmeets⟩ := C16_model_meets_spec o cmd pkg fl h
+  obtain ⟨s, hs, hmeets⟩ := C16_model_meets_spec cmd pkg fl h
   have hv : validPkg pkg = true := by
     unfold region at h
     by_cases hv : validPkg pkg = true
@@ -221,7 +183,7 @@ theorem C16_ineligible_skipped (o : Oracle) (cmd : Cmd) (pkg : Pkg) (fl : Flags)
       | file f sep => simp only [hm] at hs; (repeat' split at hs) <;> cases hs
       | star sep => simp only [hm] at hs; (repeat' split at hs) <;> cases hs
   | files fs =>
-    have hsel := (C16_selection o cmd pkg fl h fs hs).2
+    have hsel := (C16_selection cmd pkg fl h fs hs).2
     simp only [hr, meets, Bool.and_eq_true, beq_iff_eq] at hmeets
     rw [hmeets.1, hsel]
     cases hm : mode fl with
@@ -233,13 +195,13 @@ theorem C16_ineligible_skipped (o : Oracle) (cmd : Cmd) (pkg : Pkg) (fl : Flags)
       | star sep => exact hel _
 
 /-- naming a type that is missing or of the wrong kind yields a diagnostic and never an output file for it
-    (on the well-formed region: `new`, `map`, and the `rest`/`enum` runs outside F_rest_badname / F_enum_silent) -/
-theorem C16_missing_diag (o : Oracle) (cmd : Cmd) (pkg : Pkg) (fl : Flags) (h : region cmd pkg fl = .WF)
+    (all four sub-commands: `new`/`map`/`rest` stop with a Fatal, `enum` stops or skips the name with a warning) -/
+theorem C16_missing_diag (cmd : Cmd) (pkg : Pkg) (fl : Flags) (h : region cmd pkg fl = .WF)
     (ns : List String) (file : Option String) (hm : mode fl = some (.named ns file))
     (n : String) (hn : n ∈ ns) (hbad : good cmd pkg file n = false) :
-    run o cmd pkg fl = .stop .fatal ∨
-      ∃ w l, run o cmd pkg fl = .done w l true ∧ n ∉ w.flatMap (·.2) := by
-  obtain ⟨s, hs, hmeets⟩ := C16_model_meets_spec o cmd pkg fl h
+    run cmd pkg fl = .stop .fatal ∨
+      ∃ w l, run cmd pkg fl = .done w l true ∧ n ∉ w.flatMap (·.2) := by
+  obtain ⟨s, hs, hmeets⟩ := C16_model_meets_spec cmd pkg fl h
   have hmemb : n ∈ ns.filter (fun n => !good cmd pkg file n) := by simp [List.mem_filter, hn, hbad]
   have hs' : s = .rejected (ns.filter (fun n => !good cmd pkg file n)) := by
     unfold spec at hs
@@ -250,7 +212,7 @@ theorem C16_missing_diag (o : Oracle) (cmd : Cmd) (pkg : Pkg) (fl : Flags) (h : 
       rw [he] at hmemb; cases hmemb
     · cases hs; rfl
   subst hs'
-  cases hr : run o cmd pkg fl with
+  cases hr : run cmd pkg fl with
   | stop st =>
     simp only [hr, meets, beq_iff_eq] at hmeets
     exact Or.inl (by rw [hmeets])
@@ -269,13 +231,13 @@ theorem C16_missing_diag (o : Oracle) (cmd : Cmd) (pkg : Pkg) (fl : Flags) (h : 
 /-- output names: a per-type file is `src.shoot<cmd>.<type>.go` with src.go the declaring file of its single type;
     an all-in-one file is `src.shoot<cmd>.go` with src.go a file of the package (the `-file` argument or the file
     carrying the go:generate line) -/
-theorem C16_names (o : Oracle) (cmd : Cmd) (pkg : Pkg) (fl : Flags) (h : region cmd pkg fl = .WF)
-    (w : List (OutName × List String)) (l : List OutName) (b : Bool) (hr : run o cmd pkg fl = .done w l b)
+theorem C16_names (cmd : Cmd) (pkg : Pkg) (fl : Flags) (h : region cmd pkg fl = .WF)
+    (w : List (OutName × List String)) (l : List OutName) (b : Bool) (hr : run cmd pkg fl = .done w l b)
     (fs : List (OutName × List String)) (hs : spec cmd pkg fl = some (.files fs)) :
     w = fs ∧ ∀ kv ∈ w,
       (∃ t f, kv.2 = [t] ∧ fileOf pkg t = some f ∧ kv.1 = ⟨stem f, some (comp t)⟩) ∨
       (∃ g ∈ pkg.map File.name, kv.1 = ⟨stem g, none⟩) := by
-  obtain ⟨b', hr'⟩ := C16_written_eq o cmd pkg fl h fs hs
+  obtain ⟨b', hr'⟩ := C16_written_eq cmd pkg fl h fs hs
   rw [hr] at hr'
   cases hr'
   refine ⟨rfl, ?_⟩
@@ -391,26 +353,14 @@ example : spec .enum exPkg { file := "b.go", sep := true, cmdline := "shoot enum
 
 /-! ### witnesses of the finding regions: the model (= the code) does not meet the specification there -/
 
-def wGetPkg : Pkg := [ { name := "b.go", comments := [], decls := [.types [{ name := "Order", shape := .struct }]] },
-                       { name := "c.go", comments := [], decls := [.func ["Order"] []] } ]
-def wGetFl : Flags := { types := ["Order"], cmdline := "shoot new -type=Order" }
-
-/-- a type parameter called `Order` in c.go: with the map order that yields c.go first, the output is named after c.go -/
-theorem C16_F_getgofile_witness :
-    region .new wGetPkg wGetFl = .F_getgofile ∧
-    spec .new wGetPkg wGetFl = some (.files [(⟨"b", some "order"⟩, ["Order"])]) ∧
-    run (fun _ => 1) .new wGetPkg wGetFl = .done [(⟨"c", some "order"⟩, ["Order"])] [⟨"c", some "order"⟩] false ∧
-    meets (run (fun _ => 1) .new wGetPkg wGetFl) (.files [(⟨"b", some "order"⟩, ["Order"])]) = false ∧
-    meets (run (fun _ => 0) .new wGetPkg wGetFl) (.files [(⟨"b", some "order"⟩, ["Order"])]) = true := by decide
-
 def wNolinePkg : Pkg := [ { name := "a.go", comments := [], decls := [.types [{ name := "Kind", shape := .struct }]] } ]
 def wNolineFl : Flags := { types := ["*"], cmdline := "shoot new -type=*" }
 
 theorem C16_F_star_noline_witness :
     region .new wNolinePkg wNolineFl = .F_star_noline ∧
     spec .new wNolinePkg wNolineFl = some (.files [(⟨anySrc, none⟩, ["Kind"])]) ∧
-    run (fun _ => 0) .new wNolinePkg wNolineFl = .done [(⟨"", none⟩, ["Kind"])] [⟨"", none⟩] false ∧
-    meets (run (fun _ => 0) .new wNolinePkg wNolineFl) (.files [(⟨anySrc, none⟩, ["Kind"])]) = false ∧
+    run .new wNolinePkg wNolineFl = .done [(⟨"", none⟩, ["Kind"])] [⟨"", none⟩] false ∧
+    meets (run .new wNolinePkg wNolineFl) (.files [(⟨anySrc, none⟩, ["Kind"])]) = false ∧
     "" ∉ wNolinePkg.map (fun f => stem f.name) := by decide
 
 def wSepPkg : Pkg := [ { name := "a.go", comments := ["//go:generate shoot new -type=* -sep"],
@@ -421,29 +371,28 @@ def wSepFl : Flags := { types := ["*"], sep := true, cmdline := "shoot new -type
 theorem C16_F_star_sep_witness :
     region .new wSepPkg wSepFl = .F_star_sep ∧
     spec .new wSepPkg wSepFl = some (.files [(⟨"a", some "item"⟩, ["Item"]), (⟨"b", some "color"⟩, ["Color"])]) ∧
-    run (fun _ => 0) .new wSepPkg wSepFl
+    run .new wSepPkg wSepFl
       = .done [(⟨"a", some "item"⟩, ["Item"]), (⟨"a", some "color"⟩, ["Color"])] [⟨"a", some "item"⟩, ⟨"a", some "color"⟩] false := by
   decide
 
-def wRestPkg : Pkg := [ { name := "a.go", comments := [], decls := [.types [{ name := "Zone", shape := .iface [.restClient] }]] } ]
-def wRestFl : Flags := { types := ["Missing"], cmdline := "shoot rest -type=Missing" }
+/-! ### formerly finding regions, now asserted (repaired in /repo f3054bd, 081702e, ecd1cf1) -/
 
-theorem C16_F_rest_badname_witness :
-    region .rest wRestPkg wRestFl = .F_rest_badname ∧
-    spec .rest wRestPkg wRestFl = some (.rejected ["Missing"]) ∧
-    run (fun _ => 0) .rest wRestPkg wRestFl = .done [(⟨"", some "missing"⟩, ["Missing"])] [⟨"", some "missing"⟩] false ∧
-    meets (run (fun _ => 0) .rest wRestPkg wRestFl) (.rejected ["Missing"]) = false := by decide
+/-- a type parameter called `Order` in c.go no longer decides where `Order`'s output goes -/
+example : region .new [ { name := "b.go", comments := [], decls := [.types [{ name := "Order", shape := .struct }]] },
+                        { name := "c.go", comments := [], decls := [.func ["Order"] []] } ]
+      { types := ["Order"], cmdline := "shoot new -type=Order" } = .WF ∧
+    run .new [ { name := "b.go", comments := [], decls := [.types [{ name := "Order", shape := .struct }]] },
+               { name := "c.go", comments := [], decls := [.func ["Order"] []] } ]
+      { types := ["Order"], cmdline := "shoot new -type=Order" }
+      = .done [(⟨"b", some "order"⟩, ["Order"])] [⟨"b", some "order"⟩] false := by decide
 
-def wEnumPkg : Pkg :=
-  [ { name := "d.go", comments := [],
-      decls := [.types [{ name := "Level", shape := .other, under := some .int }],
-                .consts [{ names := ["LevelOne"], typ := some "Level" }]] } ]
-def wEnumFl : Flags := { types := ["Level", "Missing"], cmdline := "shoot enum -type=Level,Missing" }
+example : run .rest [ { name := "a.go", comments := [], decls := [.types [{ name := "Zone", shape := .iface [.restClient] }]] } ]
+      { types := ["Missing"], cmdline := "shoot rest -type=Missing" } = .stop .fatal := by decide
 
-theorem C16_F_enum_silent_witness :
-    region .enum wEnumPkg wEnumFl = .F_enum_silent ∧
-    spec .enum wEnumPkg wEnumFl = some (.rejected ["Missing"]) ∧
-    run (fun _ => 0) .enum wEnumPkg wEnumFl = .done [(⟨"d", some "level"⟩, ["Level"])] [⟨"d", some "level"⟩] false ∧
-    meets (run (fun _ => 0) .enum wEnumPkg wEnumFl) (.rejected ["Missing"]) = false := by decide
+example : run .enum [ { name := "d.go", comments := [],
+                        decls := [.types [{ name := "Level", shape := .other, under := some .int }],
+                                  .consts [{ names := ["LevelOne"], typ := some "Level" }]] } ]
+      { types := ["Level", "Missing"], cmdline := "shoot enum -type=Level,Missing" }
+      = .done [(⟨"d", some "level"⟩, ["Level"])] [⟨"d", some "level"⟩] true := by decide
 
 end ShootVerif.Cli
